@@ -607,7 +607,7 @@ def run_shard(shard, tier, rec):
                 return None
             key = impl.canon()
             rec.outcome((op, key[0]))
-            if nontriv and len(history) >= 1:
+            if nontriv and len(history) >= 1 and op in ("flush", "commit", "qall", "updk0", "updk3"):
                 rec.sample(dict(config=cname, history=list(history) + [op], shard_contents={k2: [list(r) for r in v] for k2, v in impl.raw()[0].items()}), limit=2)
             return m, (cname, key)
         finally:
